@@ -153,4 +153,29 @@ Section C12_state.
     apply (modularity_WF_err_iff teqb tltb teqb_spec tltb_total).
     exact (WF_reachable teqb tltb teqb_spec tltb_asym tltb_total s g Hr).
   Qed.
+
+  (* the degenerate values of a partition, as the implementation's binary64 arithmetic yields them
+     (None = NaN): total weight 0 with non-negative weights (in particular an edgeless graph, or
+     weighted = false on a graph without edges) gives 0/0; an edge without weight under
+     weighted = true makes the result NaN; the empty family on the empty graph gives 0.  With
+     C12_modularity_reachable this determines modularity() on every reachable graph with
+     non-negative weights *)
+  Theorem C12_modularity_degenerate_reachable : forall s (g : gstate T A) comms weighted gamma,
+    reachable teqb tltb s g -> Forall (@NoDup T) comms ->
+    is_partition_spec (get_all_node_names g) comms ->
+    (forall es, wedges_of weighted (get_all_edges g) = Some es ->
+                (forall e, In e es -> 0 <= ww e) -> total_w es == 0 ->
+                modularity teqb tltb g comms weighted gamma =
+                Ok (match comms with [] => Some 0 | _ => None end)) /\
+    (weighted = true -> (exists e, In e (get_all_edges g) /\ ew e = None) ->
+     modularity teqb tltb g comms weighted gamma = Ok None).
+  Proof.
+    intros s g comms weighted gamma Hr Hc Hp.
+    pose proof (WF_reachable teqb tltb teqb_spec tltb_asym tltb_total s g Hr) as W.
+    apply (is_partition_model_correct teqb teqb_spec _ _ (wf_nodup _ _ _ W) Hc) in Hp.
+    split.
+    - intros es Hes Hpos Hz.
+      exact (modularity_WF_zero teqb tltb teqb_spec tltb_total g comms weighted gamma es W Hes Hp Hpos Hz).
+    - intros -> He. exact (modularity_WF_nan teqb tltb teqb_spec tltb_total g comms gamma W Hp He).
+  Qed.
 End C12_state.
